@@ -72,7 +72,25 @@ def shared_hmm(mode):
     return _SHARED[mode]
 
 
-def decode(n, P, Q, mode):
+def with_duplicates(n, P, Q):
+    """the same model with, at every epoch after the first that has room, one more candidate that IS candidate 0 again (same value,
+    hence same likelihoods): a candidate list may hold a value twice; returns (n, P, Q, epochs with a duplicate)"""
+    T = len(n)
+    n2, P2, Q2 = list(n), [list(r) for r in P], [[list(r) for r in q] for q in Q]
+    dups = set()
+    for k in range(1, T):
+        if n2[k] < 5:
+            dups.add(k)
+            n2[k] += 1
+            P2[k].append(P2[k][0])
+            for a in range(len(Q2[k - 1])):
+                Q2[k - 1][a].append(Q2[k - 1][a][0])
+            if k < T - 1:
+                Q2[k].append(list(Q2[k][0]))
+    return n2, P2, Q2, dups
+
+
+def decode(n, P, Q, mode, dups=()):
     """run the real HMM on the model; returns the event fields.  Every second call goes through a long-lived HMM object
     shared by all the models this worker decodes (successive tracks with the same and with other numbers of epochs)"""
     from tracklib.algo.dynamics import HMM, MODE_VERBOSE_NONE
@@ -87,10 +105,14 @@ def decode(n, P, Q, mode):
     reuse = _CALLS[0] % 2 == 0
 
     def S(track, k):
+        if k in dups:
+            return [100 * k + j for j in range(n[k] - 1)] + [100 * k]
         return [100 * k + j for j in range(n[k])]
     # a fixed state space is usually written as one list returned for every epoch: the states are then the same objects
     # at every epoch (P and Q still depend on the epoch)
-    fixed = (not reuse) and len(set(n)) == 1 and _CALLS[0] % 3 == 0
+    if dups:
+        reuse = False
+    fixed = (not reuse) and (not dups) and len(set(n)) == 1 and _CALLS[0] % 3 == 0
     if fixed:
         space = list(range(n[0]))
         S = lambda track, k: space
@@ -198,6 +220,16 @@ def job_random(args):
             e = decode(n, P, Q, mode)
             e["brute"] = prod <= 1500
             out.append(e)
+        if T >= 2 and rnd.random() < 0.25:
+            n2, P2, Q2, dups = with_duplicates(n, P, Q)
+            prod2 = 1
+            for v in n2:
+                prod2 *= v
+            for mode in ("lik", "log"):
+                e = decode(n2, P2, Q2, mode, dups)
+                e["brute"] = prod2 <= 1500
+                e["hist"] = "candidate lists holding a value twice"
+                out.append(e)
         if rnd.random() < 0.3:
             # logarithms handed over directly, some far below ln(1e-300): 0, ln 2, 1000 ln 2, 1001 ln 2, 2000 ln 2, 3000 ln 2
             dids = rnd.choice([[100, 101, 110, 111], [110, 111, 120, 130], [100, 110, 120], [400, 401, 390, 110]])     # (the last: costs of 20 000 and more, totals far above 1e5)
